@@ -33,7 +33,13 @@ def cfg(configs, rots, shifts, depth, mode, invs=INVS):
 
 
 # ---- interpretation: abstract list -> Motl ------------------------------------------------------------------
-def build_motl(parts, rng, real=False):
+# identifier values (BUILDING.md dimension 10): what the abstract tomograms 1, 2, 3 of the specification are called in the
+# concrete lists - any numbers will do, in particular 0 and large consecutive ones
+TOMO_NAMES = [{1: 1, 2: 2, 3: 3}, {1: 0, 2: 3, 3: 5}, {1: 7, 2: 0, 3: 2}, {1: 100000, 2: 100001, 3: 99999},
+              {1: 240116, 2: 240115, 3: 240117}, {1: 999999, 2: 1000000, 3: 1000001}, {1: 0, 2: 1, 3: 2}]
+
+
+def build_motl(parts, rng, real=False, names=None):
     """parts: list of {sid, t, p, r} (lattice/cube, L2) or {sid, t, pos, ang} (real, L3).  The complete position is split
     into an integer-ish coordinate and a shift (non-zero shifts are part of the quantifier)."""
     from cryocat import cryomotl
@@ -58,10 +64,10 @@ def build_motl(parts, rng, real=False):
         cols["x"][i], cols["y"][i], cols["z"][i] = pos
         cols["shift_x"][i], cols["shift_y"][i], cols["shift_z"][i] = sh
         cols["phi"][i], cols["theta"][i], cols["psi"][i] = ang
-        cols["tomo_id"][i] = p["t"]
+        cols["tomo_id"][i] = names[p["t"]] if names else p["t"]
         cols["subtomo_id"][i] = p["sid"]
-        cols["object_id"][i] = 1 + (i % 3)
-        cols["class"][i] = 1
+        cols["object_id"][i] = i % 3                 # object and class numbers include 0
+        cols["class"][i] = (i // 2) % 2
         cols["score"][i] = 0.1 * (i + 1)
     # row labels are not part of a particle list: default, permuted or gapped labels must give the same analysis
     # ... nor is the order of the 20 named columns, nor whether whole-numbered positions are stored as integers
@@ -117,9 +123,11 @@ def run_state(ctx, case):
     pxf = px[0] / px[1]
     sig0 = {"op": "get_nn_stats", "scope": case.get("scope", "")}
 
-    ma = build_motl(A, rng)
+    names = TOMO_NAMES[(case["variant"] // 3) % len(TOMO_NAMES)]
+    sig0["tomograms"] = "0" if 0 in names.values() else ("large" if max(names.values()) > 90000 else "small")
+    ma = build_motl(A, rng, names=names)
     same = (A == B)
-    mb = ma if (same and case["variant"] % 2 == 0) else build_motl(B, rng)
+    mb = ma if (same and case["variant"] % 2 == 0) else build_motl(B, rng, names=names)
     guard = argguard.Guard(motl_a=ma.df, motl_nn=mb.df)
     arg_a, arg_b = ma, mb
     if case["variant"] % 6 == 5:
@@ -284,7 +292,9 @@ def rand_euler(rng):
 
 def gen_case(rng, idx, big):
     ntomo = rng.randint(1, 4)
-    tomos = rng.sample(range(1, 40), ntomo)
+    pool = rng.choice([range(1, 40), range(1, 40), range(0, 4), range(99998, 100003), range(240114, 240119),
+                       range(999998, 1000003), [0, 3, 5, 100000, 100001]])
+    tomos = rng.sample(list(pool), ntomo)
     ta = rng.sample(tomos, rng.randint(1, ntomo))
     coincident = rng.random() < 0.2
     if coincident:
